@@ -385,3 +385,188 @@ func (c *Ctx) immutableGlobalHeader(g *ssa.Global) bool {
 func inModule2(g *ssa.Global) bool {
 	return g.Pkg != nil && (g.Pkg.Pkg.Path() == modPath || len(g.Pkg.Pkg.Path()) > len(modPath) && g.Pkg.Pkg.Path()[:len(modPath)+1] == modPath+"/")
 }
+
+// ---- a local table literal driving a loop ------------------------------------------------------------------
+
+// localTableColumn: v is field f of "the current element" of a loop over a LOCAL array/slice literal
+// (for _, e := range [...]T{{..},{..}} { .. e.f .. }). Returns, for every row of the literal, the value stored in
+// that field (constants, functions, loads of package variables - whatever the literal holds), and the SSA value
+// identifying the element, or ok=false.
+func localTableColumn(v ssa.Value) ([]ssa.Value, ssa.Value, bool) {
+	fieldIdx := -1
+	cur := v
+	var root *ssa.Alloc
+	var elem ssa.Value
+	for i := 0; i < 10 && root == nil; i++ {
+		switch y := cur.(type) {
+		case *ssa.Field:
+			if fieldIdx < 0 {
+				fieldIdx = y.Field
+				elem = y.X
+			}
+			cur = y.X
+		case *ssa.Index:
+			cur = y.X
+		case *ssa.UnOp:
+			if y.Op != token.MUL {
+				return nil, nil, false
+			}
+			cur = y.X
+		case *ssa.FieldAddr:
+			if fieldIdx < 0 {
+				fieldIdx = y.Field
+				elem = y.X
+			}
+			cur = y.X
+		case *ssa.IndexAddr:
+			cur = y.X
+		case *ssa.Slice:
+			cur = y.X
+		case *ssa.Alloc:
+			var only *ssa.Store
+			n := 0
+			for _, rr := range referrersOf(y) {
+				if st, ok := rr.(*ssa.Store); ok && st.Addr == ssa.Value(y) {
+					only = st
+					n++
+				}
+			}
+			if n == 1 {
+				cur = only.Val
+			} else {
+				root = y
+			}
+		default:
+			return nil, nil, false
+		}
+	}
+	if root == nil || fieldIdx < 0 {
+		return nil, nil, false
+	}
+	at, ok := root.Type().(*types.Pointer).Elem().Underlying().(*types.Array)
+	if !ok {
+		return nil, nil, false
+	}
+	rows := make([]ssa.Value, at.Len())
+	okAll := true
+	for _, rr := range referrersOf(root) {
+		ia, isIA := rr.(*ssa.IndexAddr)
+		if !isIA {
+			continue
+		}
+		k, isK := constInt(ia.Index)
+		if !isK || k < 0 || k >= at.Len() {
+			okAll = false
+			continue
+		}
+		for _, r2 := range referrersOf(ia) {
+			fa, isFA := r2.(*ssa.FieldAddr)
+			if !isFA || fa.Field != fieldIdx {
+				continue
+			}
+			for _, r3 := range referrersOf(fa) {
+				if st, isSt := r3.(*ssa.Store); isSt && st.Addr == ssa.Value(fa) {
+					rows[k] = st.Val
+				}
+			}
+		}
+	}
+	for _, rv := range rows {
+		if rv == nil {
+			okAll = false
+		}
+	}
+	if !okAll {
+		return nil, nil, false
+	}
+	return rows, elem, true
+}
+
+// A decoration registered by a package initializer: its name and the function that builds it.
+type initRegistration struct {
+	Name    string
+	Builder *ssa.Function
+	Value   ssa.Value // the registered value when it is not a plain call of Builder (nil otherwise)
+	At      ssa.Instruction
+	Fn      *ssa.Function
+}
+
+// decorationInitRegistrations: every RegisterDecorationName call made by an initializer of the decoration package,
+// expanded over the rows of a local table when the name and the builder come from one. unresolved lists calls
+// whose name could not be determined.
+func decorationInitRegistrations(c *Ctx) (regs []initRegistration, unresolved []ssa.Instruction) {
+	regFn := c.Func("texttable/decoration", "RegisterDecorationName")
+	if regFn == nil {
+		return nil, nil
+	}
+	for _, fn := range c.ModFuncs("texttable/decoration") {
+		if !isPkgInit(fn) {
+			continue
+		}
+		fn := fn
+		eachInstr(fn, func(in ssa.Instruction) {
+			if staticCallee(in) != regFn {
+				return
+			}
+			cc := callCommon(in)
+			if s, ok := constString(cc.Args[0]); ok {
+				rg := initRegistration{Name: s, At: in, Fn: fn, Value: cc.Args[1]}
+				if call, isCall := cc.Args[1].(*ssa.Call); isCall && call.Call.StaticCallee() != nil {
+					rg.Builder = call.Call.StaticCallee()
+				}
+				regs = append(regs, rg)
+				return
+			}
+			names, e1, ok1 := localTableColumn(cc.Args[0])
+			if !ok1 {
+				unresolved = append(unresolved, in)
+				return
+			}
+			// the value: a call of the function held in another field of the same element
+			var builders []ssa.Value
+			if call, isCall := cc.Args[1].(*ssa.Call); isCall && call.Call.StaticCallee() == nil {
+				if bs, e2, ok2 := localTableColumn(call.Call.Value); ok2 && sameElem(e1, e2) {
+					builders = bs
+				}
+			}
+			for k, nv := range names {
+				s, isS := constString(nv)
+				if !isS {
+					unresolved = append(unresolved, in)
+					return
+				}
+				rg := initRegistration{Name: s, At: in, Fn: fn}
+				if builders != nil {
+					switch b := builders[k].(type) {
+					case *ssa.Function:
+						rg.Builder = b
+					case *ssa.MakeClosure:
+						rg.Builder, _ = b.Fn.(*ssa.Function)
+					}
+				}
+				regs = append(regs, rg)
+			}
+		})
+	}
+	return regs, unresolved
+}
+
+// sameElem: two element designators refer to the same loop element (the same local copy, or loads of it).
+func sameElem(a, b ssa.Value) bool {
+	root := func(v ssa.Value) ssa.Value {
+		for i := 0; i < 4; i++ {
+			switch y := v.(type) {
+			case *ssa.UnOp:
+				v = y.X
+			case *ssa.Field:
+				v = y.X
+			case *ssa.FieldAddr:
+				v = y.X
+			default:
+				return v
+			}
+		}
+		return v
+	}
+	return root(a) == root(b)
+}
